@@ -282,6 +282,13 @@ fn process_ramp_block<H: Host>(
         };
     }
 
+    let page_count = match emulator.settings.machine {
+        crate::zx::machine::ZXMachine::Sinclair48K => 3,
+        crate::zx::machine::ZXMachine::Sinclair128K => 8,
+    };
+    if page_num >= page_count {
+        return Err(SnapshotLoadError::InvalidSZXFile.into());
+    }
     let page_data = emulator.controller.memory.ram_page_data_mut(page_num);
 
     if flags & ZXSTRF_COMPRESSED != 0 {
@@ -293,16 +300,22 @@ fn process_ramp_block<H: Host>(
             let compressed_data: Vec<u8> = block_data[3..].to_vec();
             match decompress_zlib_stream(&compressed_data) {
                 Ok(data) => {
+                    if data.len() < page_data.len() {
+                        return Err(SnapshotLoadError::InvalidSZXFile.into());
+                    }
                     return {
                         page_data.copy_from_slice(&data[..page_data.len()]);
                         Ok(())
-                    }
+                    };
                 }
                 Err(_) => return Err(SnapshotLoadError::InvalidSZXFile.into()),
             }
         }
     } else {
         let uncompressed_data: Vec<u8> = block_data[3..].to_vec();
+        if uncompressed_data.len() < page_data.len() {
+            return Err(SnapshotLoadError::InvalidSZXFile.into());
+        }
         page_data.copy_from_slice(&uncompressed_data[..page_data.len()]);
     }
 
